@@ -7,7 +7,7 @@ Subset (anything else raises Unsupported and the run fails closed):
   def f(params with annotations int | List[int] | Optional[int] | bool) with a body of
      docstring | `if c: return e` | `if c: raise ...` | `if x is None: x = e` | `x = e` | `return e` | `raise ...`
   expressions: int constants, names, + - * ** , comparisons (chained), and/or/not, `not <list>`, len sum min sorted, x[i],
-     all(<expr> for v in <list>) , all(<expr> for v in range(e)), self.<field> (fields become parameters).
+     all(<expr> for v in <list>) , all(<expr> for v in range(e)), self.<field> (fields become parameters), == / != on str parameters.
 Semantics assumed (the trusted part of this tie): Python int = Z; list of int = list Z; sorted = insertion sort (PyLib.py_sorted, any stable
 sort gives the same list of integers); ** with a negative exponent is never reached in the translated functions (guarded), Z.pow gives 0 there.
 A function that can raise returns option: None = raised."""
@@ -21,6 +21,7 @@ TARGETS = [
     ("chipfiring/CFCombinatorics.py", None, "complete_multipartite_gonality"),
     ("chipfiring/CFPlatonicSolids.py", None, "complete_graph_gonality"),
     ("chipfiring/CFGraph.py", "CFGraph", "get_genus"),
+    ("chipfiring/CFGraph.py", "CFGraph", "is_loopless"),
 ]
 SELF_FIELDS = {"total_valence": ("self_total_valence", "Z"), "vertices": ("self_vertices", "list Z")}   # a set is only measured with len()
 
@@ -31,6 +32,7 @@ def ann_type(a):
     s = ast.unparse(a)
     if s == "int": return "Z"
     if s == "bool": return "bool"
+    if s == "str": return "pystr"
     if s in ("List[int]", "typing.List[int]", "list"): return "list Z"
     if s in ("Optional[int]", "typing.Optional[int]"): return "option Z"
     raise Unsupported("annotation " + s)
@@ -77,6 +79,8 @@ class Fn:
             for l, op, r in zip(terms, e.ops, terms[1:]):
                 if isinstance(op, (ast.Is, ast.IsNot)): bad(e, "'is' outside the `if x is None: x = ...` form")
                 a, ta = self.expr(l); b, tb = self.expr(r)
+                if ta == "pystr" and tb == "pystr" and isinstance(op, (ast.Eq, ast.NotEq)):      # == / != on strings: equality of the code-point lists (never identity)
+                    out.append(("(py_str_eqb %s %s)" if isinstance(op, ast.Eq) else "(negb (py_str_eqb %s %s))") % (a, b)); continue
                 if ta != "Z" or tb != "Z": bad(e, "comparison of non-integers")
                 o = {ast.Lt: "(%s <? %s)", ast.LtE: "(%s <=? %s)", ast.Gt: "(%s >? %s)", ast.GtE: "(%s >=? %s)", ast.Eq: "(%s =? %s)", ast.NotEq: "(negb (%s =? %s))"}.get(type(op))
                 if not o: bad(e, "comparison operator")
